@@ -34,3 +34,6 @@ GS('dm.__ymd_diff', 'date-core', '__ymd_diff', ['C05'], ysplit('d1.y', 4, 1601, 
    replace=['__get_mdays'], solvers=SV, timeout=900, sweep={'in_u1': SWY, 'in_u2': SWY}, **Y2)
 GS('dm.__yd_diff', 'date-core', '__yd_diff', ['C05'], ysplit('d1.y', 4, 1601, 4095), setup='dt_yd_t d1, d2; d1.u = in_u1; d2.u = in_u2;', call='__yd_diff(d1, d2)', ret='struct dt_ddur_s',
    replace=['__leapp'], solvers=SV, timeout=900, sweep={'in_u1': SWD, 'in_u2': SWD}, **Y2)
+G('dm.dt_dur_neg_p', 'date-core', 'dt_dur_neg_p', ['C16'], ins=[(U, 'in_dt'), ('int', 'in_dv'), (U, 'in_neg')],
+  setup='struct dt_ddur_s dur = {DT_DURUNK}; dur.durtyp = (dt_durtyp_t)in_dt; dur.dv = in_dv; dur.neg = in_neg & 1;', call='dt_dur_neg_p(dur)', ret='int',
+  sweep={'in_dt': 'RND % 12'})
